@@ -391,27 +391,30 @@ def setupRetry (g : GRetry) (inCtx : Except Err Val.Dict) : RetryState × Option
       | .error e => (r1, some e)
       | .ok cnt => ({ r1 with count := cnt }, none)
 
+/-- the record `add_task_state` builds (before it is appended), and the error of the retry setup -/
+def newRecord (c : Cond) (k : TaskKey) (ctxsIn : List Nat) (prev : List (TransId × Nat)) : Rec × Option Err :=
+  let ctxsIn := if ctxsIn.isEmpty then [0] else ctxsIn
+  let r0 : Rec := { id := k.1, route := k.2, ctxsIn := ctxsIn, prev := prev }
+  match c.graph.retry? k.1 with
+  | none => (r0, none)
+  | some g =>
+    let res := setupRetry E g (c.st.taskContext ctxsIn)
+    ({ r0 with retry := some res.1 }, res.2)
+
 /-- `add_task_state(task_id, route, in_ctx_idxs, prev)`; returns the new record's index -/
 def addTaskState (k : TaskKey) (ctxsIn : List Nat) (prev : List (TransId × Nat)) : M Nat := do
   let c ← get
   if !c.graph.hasTask k.1 then throw .invalidTask
   else do
-    let ctxsIn := if ctxsIn.isEmpty then [0] else ctxsIn
-    let r0 : Rec := { id := k.1, route := k.2, ctxsIn := ctxsIn, prev := prev }
-    let r ← (match c.graph.retry? k.1 with
-      | none => pure r0
-      | some g => do
-        let (rs, err) := setupRetry E g (c.st.taskContext ctxsIn)
-        match err with
-        | none => pure { r0 with retry := some rs }
-        | some e => do
-          logError e.className (some k.1) (some k.2)
-          requestStatus .failed
-          pure { r0 with retry := some rs } : M Rec)
-    let c ← get
-    let idx := c.st.sequence.length
-    modifySt fun st => (({ st with sequence := st.sequence ++ [r] } : WState).setTask k idx)
-    pure idx
+    (match (newRecord E c k ctxsIn prev).2 with
+      | none => pure ()
+      | some e => do
+        logError e.className (some k.1) (some k.2)
+        requestStatus .failed : M Unit)
+    let c' ← get
+    modifySt fun st => (({ st with sequence := st.sequence ++ [(newRecord E c k ctxsIn prev).1] } : WState).setTask k
+      c'.st.sequence.length)
+    pure c'.st.sequence.length
 
 /-- the task state machine's answer for an event on record `r` (item events look at the staged
     entry's other items) -/
@@ -653,45 +656,69 @@ def markTermIfCompleted (idx : Nat) : M Unit := do
   if c.st.status.isCompleted then modifySt fun st => st.updateRec idx fun r => { r with term := true }
   else pure ()
 
+/-- the task state machine applied to record `idx`, and the re-staging of a record that became
+    `retrying`; returns the status before and after -/
+def machineStep (k : TaskKey) (idx : Nat) (ev : Event) : M (Status × Status) := do
+  let c ← get
+  let r ← liftOpt c.st.sequence[idx]? .indexError
+  let oldStatus := r.status.getD .unset
+  tkProcessEvent idx ev
+  let c ← get
+  let r ← liftOpt c.st.sequence[idx]? .indexError
+  let newStatus := r.status.getD .unset
+  restageRetry k idx oldStatus
+  pure (oldStatus, newStatus)
+
+structure Stepped where
+  idx : Nat
+  ts : TaskSpec
+  oldStatus : Status
+  newStatus : Status
+
+/-- first half of `update_task_state`: resolve the record, note the event, run the task machine -/
+def updateHead (k : TaskKey) (ev : Event) : M Stepped := do
+  let c ← get
+  if !c.graph.hasTask k.1 then throw .invalidTask
+  else do
+  let staged0 := c.st.getStaged? k
+  let rec0 := c.st.taskIdx? k
+  let ts ← liftOpt (c.spec.getTask? k.1) .keyError
+  if staged0.isNone && (c.st.getRec? k).isNone then throw .invalidTaskStateEntry
+  else do
+  let idx ← ensureRecord E k staged0 rec0 ev
+  noteEvent k staged0 ev
+  let (oldStatus, newStatus) ← machineStep k idx ev
+  pure { idx := idx, ts := ts, oldStatus := oldStatus, newStatus := newStatus }
+
+/-- after the retry decision said no: outbound transitions, workflow state machine, queued engine
+    commands (re-entering `update_task_state`) -/
+def updateRest (recur : TaskKey → Event → M Unit) (k : TaskKey) (ev : Event) (h : Stepped) : M Unit := do
+  let acc ← (if h.newStatus.isCompleted && h.newStatus != h.oldStatus then evalTransitions E k h.idx h.ts ev
+             else pure {} : M TransAcc)
+  -- workflow state machine
+  let c ← get
+  let r ← liftOpt c.st.sequence[h.idx]? .indexError
+  let st ← liftOpt r.status .keyError
+  wfProcessTaskEvent k st
+  -- engine commands
+  forEach acc.queue fun nk =>
+    match Cmd.ofStr? nk.1 with
+    | some cmd => recur nk (.engine cmd)
+    | none => pure ()
+  markTermIfCompleted h.idx
+
+/-- second half: the retry decision (re-entering `update_task_state` with the retry event), or the rest -/
+def updateTail (recur : TaskKey → Event → M Unit) (k : TaskKey) (ev : Event) (h : Stepped) : M Unit := do
+  let retry ← (if h.newStatus.isCompleted then completedRetryDecision E k h.idx h.ts h.newStatus ev
+               else pure false : M Bool)
+  if retry then recur k (.engine .retry_)
+  else updateRest E recur k ev h
+
 def updateTaskStateAux : Nat → TaskKey → Event → M Unit
   | 0, _, _ => throw (.machine .other)
   | fuel + 1, k, ev => do
-    let c ← get
-    if !c.graph.hasTask k.1 then throw .invalidTask
-    else do
-    let staged0 := c.st.getStaged? k
-    let rec0 := c.st.taskIdx? k
-    let ts ← liftOpt (c.spec.getTask? k.1) .keyError
-    if staged0.isNone && (c.st.getRec? k).isNone then throw .invalidTaskStateEntry
-    else do
-    let idx ← ensureRecord E k staged0 rec0 ev
-    noteEvent k staged0 ev
-    -- task state machine
-    let c ← get
-    let r ← liftOpt c.st.sequence[idx]? .indexError
-    let oldStatus := r.status.getD .unset
-    tkProcessEvent idx ev
-    let c ← get
-    let r ← liftOpt c.st.sequence[idx]? .indexError
-    let newStatus := r.status.getD .unset
-    restageRetry k idx oldStatus
-    let retry ← (if newStatus.isCompleted then completedRetryDecision E k idx ts newStatus ev
-                 else pure false : M Bool)
-    if retry then updateTaskStateAux fuel k (.engine .retry_)
-    else do
-    let acc ← (if newStatus.isCompleted && newStatus != oldStatus then evalTransitions E k idx ts ev
-               else pure {} : M TransAcc)
-    -- workflow state machine
-    let c ← get
-    let r ← liftOpt c.st.sequence[idx]? .indexError
-    let st ← liftOpt r.status .keyError
-    wfProcessTaskEvent k st
-    -- engine commands
-    forEach acc.queue fun nk =>
-      match Cmd.ofStr? nk.1 with
-      | some cmd => updateTaskStateAux fuel nk (.engine cmd)
-      | none => pure ()
-    markTermIfCompleted idx
+    let h ← updateHead E k ev
+    updateTail E (updateTaskStateAux fuel) k ev h
 
 def updateTaskState (k : TaskKey) (ev : Event) : M Unit := updateTaskStateAux E 3 k ev
 
